@@ -228,7 +228,9 @@ GLOBAL_EVENTS = ('incoming', 'outgoing', 'pp_list', 'user_stats', 'min_speed', '
                  'session_destroyed', 'session_initialized')
 
 
-def apply_event(c, w: World, g: Ghost, kind, conn=None, tag=''):
+def apply_event(c, w: World, g: Ghost, kind, conn=None, tag='', stall_new=0):
+    """`stall_new` = n > 0: the socket of the connection created by an 'incoming' event does not drain (slow peer)
+    from the n-th frame written to it on"""
     dn = w.dn
     if kind == 'level':
         lv = c.fresh_int(f'level{tag}', 0, MAX_LEVEL)
@@ -243,7 +245,10 @@ def apply_event(c, w: World, g: Ghost, kind, conn=None, tag=''):
     elif kind in ('incoming', 'outgoing'):
         u = tok(c, f'u_new{tag}', 1)
         nc = w.new_peer_conn(u, incoming=(kind == 'incoming'))
+        nc.fake_writer.hang_drain = stall_new > 0
+        nc.fake_writer.hang_from = stall_new
         w.ev_peer_initialized(nc, requested=(kind == 'outgoing'))
+        return nc
     elif kind == 'connect_ok':
         w.ev_connect_ok(0)
     elif kind == 'pp_list':
@@ -379,7 +384,15 @@ def h_overlap(c, roles, stall, e1):
         w = World(c)
         dn = w.dn
         conns, peers, g = build_pre_state(c, w, roles, [], concrete_names=True)
-        if stall == 'server':
+        stalled = None
+        new_child_stall = {'new_child': 1, 'new_child_root': 2}.get(stall, 0)
+        if new_child_stall:
+            # the socket of the connection that comes in with the first event is slow: _add_child is suspended in
+            # the send of our position (level: first frame, root: second frame) to the new child while the second
+            # event is handled
+            if e1 != 'incoming':
+                raise symex.HarnessError('new_child stall needs e1 == incoming')
+        elif stall == 'server':
             w.server.fake_writer.hang_drain = True
             stalled = w.server.fake_writer
         else:
@@ -393,7 +406,7 @@ def h_overlap(c, roles, stall, e1):
                 kind = c.pick(OVERLAP_EVENTS, 'event2')
             conn = None
             if kind in PEER_EVENTS:
-                senders = [i for i in live_idx if conns[i].state is ConnectionState.CONNECTED]
+                senders = [i for i in sorted(conns) if conns[i].state is ConnectionState.CONNECTED]
                 if not senders:
                     w.cleanup()
                     return
@@ -402,12 +415,18 @@ def h_overlap(c, roles, stall, e1):
                 if kind != 'close':
                     earlier_announcements(c, g, dn, peers.get(si), conn, kind, tag=f'_{n}')
             sigs.append(ev_sig(dn, kind, conn)[:1])
-            apply_event(c, w, g, kind, conn, tag=f'_{n}')
+            nc = apply_event(c, w, g, kind, conn, tag=f'_{n}', stall_new=new_child_stall if n == 0 else 0)
+            if new_child_stall and n == 0:
+                stalled = nc.fake_writer
+                conns[len(roles)] = nc          # it can be the sender of the second event (e.g. it closes)
+                peers[len(roles)] = next((p for p in dn.distributed_peers if p.connection is nc), None)
             g.check_admission(['overlap', kind])
         c.reach('overlapped' if w.loop.pending_tasks() else 'no_overlap')
         stalled.release()
         w.settle()
-        g.check(['overlap', 'server' if stall == 'server' else 'close_of_' + roles[stall]] + sigs[0] + sigs[1])
+        what = {'server': 'server', 'new_child': 'send_to_new_child', 'new_child_root': 'send_to_new_child'}.get(stall) \
+            or 'close_of_' + roles[stall]
+        g.check(['overlap', what] + sigs[0] + sigs[1])
         w.cleanup()
 
 
@@ -534,11 +553,12 @@ META = {
     'discriminants': ['role of each of the 3..4 peers (absent / candidate / child / parent / connecting)', 'event kind (12)', 'sender',
                       'session present or not', 'which of level/root the sender announced before', 'length of the potential-parent cache (0..2) and of a list (1..2)',
                       'number of children in the limit harness (0..3)',
-                      'overlap harness: which socket stalls (server drain / close of one peer connection), the two overlapping events'],
+                      'overlap harness: which socket stalls (server drain / close of one peer connection / the socket of a freshly accepted child at its first or second frame), the two overlapping events'],
     'bounds': {'quick': {'peers': 3, 'step': 'every role assignment over absent/cand/child/parent x session yes/no x every event x every sender',
-                         'sequence_length': 4, 'overlap': '2 role assignments x every stalled socket x first event in {level, close} x every second event'},
+                         'sequence_length': 4, 'overlap': '2 role assignments x every stalled socket x first event in {level, close} x every second event; '
+                                                          'slow socket of a new child: 3 role assignments x every second event (sender may be the new child)'},
                'thorough': {'peers': 4, 'step': 'every role assignment over 5 roles x session yes/no x every event x every sender', 'sequence_length': 5,
-                            'overlap': 'every 3-peer role assignment x every stalled socket x every pair of events'}},
+                            'overlap': 'every 3-peer role assignment x every stalled socket (incl. the slow socket of a new child) x every pair of events'}},
     'outside': ['more than two events overlapping in time; schedules other than FIFO (overlap is produced by a stalled socket only)',
                 'send failures / write errors', 'settings.debug.search_for_parent = False',
                 'a parent announcing level 2^32-1 (level+1 does not fit the wire format; the serialiser drops the message)',
@@ -589,6 +609,15 @@ def jobs(tier):
             for e1 in (('level', 'close') if tier == 'quick' else OVERLAP_EVENTS):
                 out.append({'harness': 'overlap', 'fn': h_overlap, 'params': {'roles': t, 'stall': stall, 'e1': e1},
                             'requires': ['overlapped'] if (stall == 'server' and e1 == 'level' and 'parent' in t) else []})
+    # a slow socket of a freshly accepted child: the send of our position to it overlaps with a second event
+    nc_roles = [['child', 'absent', 'absent'], ['parent', 'child', 'absent'], ['parent', 'absent', 'absent']] if tier == 'quick' \
+        else list(_role_tuples(3, ('absent', 'cand', 'child', 'parent')))
+    for t in nc_roles:
+        out.append({'harness': 'overlap', 'fn': h_overlap, 'params': {'roles': t, 'stall': 'new_child', 'e1': 'incoming'},
+                    'requires': ['overlapped', 'admission']})
+        if 'parent' in t:       # a root frame is only sent at a level other than 0
+            out.append({'harness': 'overlap', 'fn': h_overlap, 'params': {'roles': t, 'stall': 'new_child_root', 'e1': 'incoming'},
+                        'requires': ['overlapped', 'admission']})
     for n in range(0, 4):
         for ratio in ([50, 3] if tier == 'quick' else [50, 30, 3, 1, None]):
             out.append({'harness': 'limits', 'fn': h_limits, 'params': {'n_children': n, 'server_values': True, 'ratio': ratio},
